@@ -3,7 +3,7 @@ From Coq Require Import List Arith ZArith.
 Import ListNotations.
 From Exmex.Model Require Import Base EvalBinary Lexer Flat.
 From Exmex.Spec Require Import RefSem.
-From Exmex.Proofs Require Import ChainMachine SortedRef EvalBinaryCorrect FlatEval WalkSim C01Main C01Vars.
+From Exmex.Proofs Require Import ChainMachine SortedRef EvalBinaryCorrect FlatEval WalkSim C01Main C01Vars Accept.
 Open Scope nat_scope.
 
 (* The main theorem.  For EVERY data type (carrier C), every operator table whose binary priorities lie in 0..99,
@@ -34,6 +34,31 @@ Proof.
   intros D C tb R Hwf Hr Hs Ht Hb Hu Ha c text vals Hwfc Hlen.
   destruct (vars_in_chain c) as [Hv0 Hvr].
   exact (flat_parse_is_reference C tb Hwf R Hr Hs Ht Hb Hu Ha (find_parsed_vars (flatten c)) vals Hlen c text Hwfc Hv0 Hvr).
+Qed.
+
+(* ... and the precondition check (the pair rules, the parenthesis balance, the last token) accepts the rendering of
+   every well-formed tree, so the same holds for the entry point on token lists, parse_tokens_wo *)
+Theorem C01_token_entry_point :
+  forall (D : Type) (C : carrier D) (tb : optable) (R : D -> D -> Prop),
+  wf_table tb = true ->
+  (forall a, R a a) -> (forall a b, R a b -> R b a) -> (forall a b c, R a b -> R b c -> R a c) ->
+  (forall k a a' b b', R a a' -> R b b' -> R (binf C k a b) (binf C k a' b')) ->
+  (forall k a a', R a a' -> R (unf C k a) (unf C k a')) ->
+  (forall o, comm_of tb o = true -> forall a b c, R (binf C o (binf C o a b) c) (binf C o a (binf C o b c))) ->
+  forall (c : chain (D:=D)) (text : str) (vals : list D),
+  wf_chain tb c = true ->
+  length vals = length (find_parsed_vars (flatten c)) ->
+  check_preconditions tb (flatten c) = Ok tt /\
+  exists fx v,
+    parse_tokens_wo tb true text (flatten c) = Ok fx /\
+    fvars fx = find_parsed_vars (flatten c) /\
+    eval_flat C fx vals = Ok v /\
+    R v (ref_chain C tb (find_parsed_vars (flatten c)) vals c).
+Proof.
+  intros D C tb R Hwf Hr Hs Ht Hb Hu Ha c text vals Hwfc Hlen.
+  pose proof (rendering_accepted tb c Hwfc) as Hacc. split; [exact Hacc|].
+  destruct (C01_eval_is_reference D C tb R Hwf Hr Hs Ht Hb Hu Ha c text vals Hwfc Hlen) as (fx & v & H1 & H2 & H3 & H4).
+  exists fx, v. unfold parse_tokens_wo. rewrite Hacc. cbn [bind]. repeat split; assumption.
 Qed.
 
 (* when the flagged operators really are associative the two values are EQUAL *)
@@ -101,9 +126,9 @@ Proof. vm_compute. reflexivity. Qed.
 
 (* Still outside the theorem (covered by the correspondence of this check: model = implementation evaluated in Coq,
    implementation = reference interpreter on random trees, renderings and tables): the tokenizer on the TEXT renderings
-   of a tree (whitespace, braces, call form), that check_preconditions accepts every rendering of a well-formed
-   tree, and constant folding (C02). *)
+   of a tree (whitespace, braces, call form; C08 and C13 have the theorems about the tokenizer's parts). *)
 Print Assumptions C01_eval_is_reference.
+Print Assumptions C01_token_entry_point.
 Print Assumptions C01_exact_when_flags_are_sound.
 Print Assumptions C01_free_terms.
 Print Assumptions C01_any_flat_expression_is_precedence.
